@@ -64,9 +64,11 @@ func compile(expr ast.Expr, env1 *val.Env, outerPrec oper.BP) compiler.Closure {
 		objId, ok := e.Obj.(*ast.IdentExpr)
 		util.Assert(ok, "expect ident actual %s", e.Obj)
 		id := objId.Name
-		idx := e.Index
+		name := e.Field.Name
 		return func(env *val.Env) *val.Val {
-			return val.Str(fmtVal(env.MustGet(id).Obj().V[idx]))
+			v, ok := env.MustGet(id).Obj().Get(name)
+			util.Assert(ok, "undefined field %s", name)
+			return val.Str(fmtVal(v))
 		}
 	case *ast.CallExpr:
 		util.Assert(e.Resolved != "", "only support static dispatch")
